@@ -4,7 +4,7 @@
     must still be there, and the only thread that could have released it meanwhile is the sweeper, which releases what the
     expiry index lists; so the invariant says that the expiry index (and the ids kept in the windows of put_or_update and
     of the worker, which are what is written into it) only ever mentions ids that have been used: below the id counter,
-    not pending, not the one admitted.  That such ids never become pending again is MicroFlow.v. *)
+    not pending, not the one let in.  That such ids never become pending again is MicroFlow.v. *)
 From CacheD Require Import Base Sketch Model Window Micro.
 From CacheD.proofs Require Import Defs AListLemmas InvLemmas InvOps InvCalls InvWorker InvProofs ApiProofs HistoryProofs
                                   StatsProofs MicroLedger MicroAll MicroCharged MicroFlow.
@@ -210,13 +210,13 @@ Qed.
 
 (** ** the invariant *)
 Definition adm_id (ms : mstate) : option Z :=
-  match wdel ms with Some (WPAdmitted _ _ _ id _ _) => Some id | _ => None end.
+  match wdel ms with Some (WPCharged _ _ _ id _ _) => Some id | _ => None end.
 
 Definition Used (s : state) (adm : option Z) (id : Z) : Prop := Oldp s id /\ adm <> Some id.
 
 Record HC (ms : mstate) : Prop := {
   h_held : Held (mbase ms);
-  h_adm : forall a k v id ttl obs, wdel ms = Some (WPAdmitted a k v id ttl obs) ->
+  h_adm : forall a k v id ttl obs, wdel ms = Some (WPCharged a k v id ttl obs) ->
             (exists wk, alookup id (weights (mbase ms)) = Some wk /\ w_key wk = k) /\ Oldp (mbase ms) id;
   h_del : forall a id exp, wdel ms = Some (WDStore a id exp) -> forall k, idof (mbase ms) k <> Some id;
   h_tick : forall id, TIN (ticker (mbase ms)) id -> Used (mbase ms) (adm_id ms) id;
@@ -229,14 +229,14 @@ Lemma Used_FL : forall s s' adm id, FL s s' -> Used s adm id -> Used s' adm id.
 Proof. intros s s' adm id F [H1 H2]. split; [eapply FL_oldp; eassumption|exact H2]. Qed.
 
 (** the id of a stored entry has been used: it is charged (hence below the counter and not pending), and it is not the
-    admitted id, whose key is not stored *)
+    let in id, whose key is not stored *)
 Lemma stored_id_used : forall s f k id, Led s -> SI s f -> Held s -> idof s k = Some id ->
   Oldp s id /\ (f_key f <> None -> f_id f <> Some id).
 Proof.
   intros s f k id HL HS HH Hk. destruct (HH k id Hk) as (wk & Hw & Hkk). split.
   - split; [exact (led_ids s HL id wk Hw)|]. intros Hin. destruct (proj2 (led_pending s HL) id Hin) as [_ Hn]. congruence.
   - intros Hfk Hfi. destruct (f_key f) as [kf|] eqn:Ekf; [|contradiction].
-    pose proof (si_admitted s f HS kf id wk Ekf Hfi Hw) as E. pose proof (si_key s f HS kf Ekf) as Hn. congruence.
+    pose proof (si_flight_key s f HS kf id wk Ekf Hfi Hw) as E. pose proof (si_key s f HS kf Ekf) as Hn. congruence.
 Qed.
 
 Lemma fl_of_adm : forall ms, f_key (fl_of ms) <> None -> f_id (fl_of ms) = adm_id ms.
@@ -644,7 +644,7 @@ Lemma Oldp_same : forall s s' id, next_id s' = next_id s -> queue s' = queue s -
 Proof. intros s s' id A B C H. exact (FL_oldp s s' id (FL_same s s' A B C) H). Qed.
 
 (** ** assembling the invariant after a step *)
-(** the windows are untouched; keys may disappear from the store, the admitted id keeps its charge *)
+(** the windows are untouched; keys may disappear from the store, the let in id keeps its charge *)
 Lemma HC_intro_same : forall ms ms',
   wdel ms' = wdel ms -> ups (win ms') = ups (win ms) -> wpending (win ms') = wpending (win ms) ->
   FL (mbase ms) (mbase ms') -> Held (mbase ms') ->
@@ -1202,7 +1202,7 @@ Proof.
     + intros id' Hi. apply (Hu _ HF). apply (h_tick ms HC0). destruct exp; unfold set_ack in Hi; sred; [apply TIN_delete in Hi|]; exact Hi.
     + intros t u id' o n Hl Hr. apply (Hu _ HF). exact (h_ups ms HC0 t u id' o n Hl Hr).
     + intros p Hp. eapply FL_oldp; [exact HF|]. exact (h_wp ms HC0 p Hp).
-  - (* put: the admitted key is inserted *)
+  - (* put: the let in key is inserted *)
     destruct (h_adm ms HC0 a k v id ttl obs Hwd) as [(wk & Hwk & Hkk) Hold].
     destruct (p_x ms HP) as [Hx|Hwp]; [congruence|].
     assert (Ha0 : adm_id ms = Some id) by (unfold adm_id; rewrite Hwd; reflexivity).
@@ -1327,7 +1327,7 @@ Qed.
 
 (* STATEMENT (C05 at every micro state: keys and charges correspond one to one, up to the one command in flight): under the
    same guard, distinct stored keys carry distinct ids, and the expiry index never lists the id of a put that is still
-   pending or admitted but not yet stored - so the sweeper can never release the charge of a key that is about to be inserted *)
+   pending or let in but not yet stored - so the sweeper can never release the charge of a key that is about to be inserted *)
 Lemma micro_store_ids_distinct_all : forall cfg evs k1 k2 e1 e2, c_debug cfg = true ->
   let ms := mrun cfg evs in
   shut (mbase ms) = false -> worker (mbase ms) <> Dead ->
@@ -1341,7 +1341,7 @@ Qed.
 
 (* STATEMENT (why the insert after admission finds its charge): under the same guard, the expiry index (as the sweeper reads it)
    only lists ids that have been used - below the id counter, not carried by any pending put, and not the id the worker has
-   admitted but not yet stored - so a sweep can never release the charge of a key that is about to be inserted *)
+   let in but not yet stored - so a sweep can never release the charge of a key that is about to be inserted *)
 Lemma micro_index_lists_used_ids_all : forall cfg evs id, c_debug cfg = true ->
   let ms := mrun cfg evs in
   shut (mbase ms) = false -> worker (mbase ms) <> Dead -> TIN (ticker (mbase ms)) id ->
@@ -1354,7 +1354,7 @@ Qed.
 
 From CacheD.proofs Require MicroProofs.
 
-(** non-vacuity: key 1 stored and charged, key 2 admitted and charged but not yet stored *)
+(** non-vacuity: key 1 stored and charged, key 2 let in and charged but not yet stored *)
 Example held_with_put_in_flight_witness :
   let evs := [MEnter 0 (RPutW 1 10 5) []; MStepC 0 []; MStepC 0 []; MStepC 0 []; MWorker1 MicroProofs.orc0; MWorker2;
               MEnter 0 (RPutW 2 20 6) []; MStepC 0 []; MStepC 0 []; MStepC 0 []; MWorker1 MicroProofs.orc0] in
